@@ -360,3 +360,190 @@ Section KeyExec.
     Timeout 20 cbv. reflexivity.
   Qed.
 End KeyExec.
+
+(* ====================== the dot spelling $.k ====================== *)
+Definition ctrl_ranges : list (N * N) := [(0, 31); (127, 127)].
+Definition dbody : pexp :=
+  PAlt (PSeq (PLit [92]) (PRef 14)) (PSeq (PNot (PCls false ctrl_ranges)) (PSeq (PNot (PRef 14)) PAny)).
+Lemma rule13_shape : nth_error G 13 = Some (PAlt (PRef 17) (PSeq (PCap (PPlus dbody)) (PSeq (PNot (PLit [40; 41])) (PAct 10)))).
+Proof. reflexivity. Qed.
+Lemma rule14_shape : nth_error G 14 = Some (PCls false dot_ranges).
+Proof. reflexivity. Qed.
+
+Definition dot_unit (c : N) : list N := if dot_sym c then [92; c] else [c].
+Lemma dot_sym_92 : dot_sym 92 = true. Proof. reflexivity. Qed.
+Lemma dot_sym_42 : dot_sym 42 = true. Proof. reflexivity. Qed.
+Lemma dot_sym_46 : dot_sym 46 = true. Proof. reflexivity. Qed.
+
+Lemma ev_sym_ok c r pos : dot_sym c = true -> evG (PRef 14) (c :: r) pos (POk r (S pos) []).
+Proof. intros H. eapply ev_ref; [exact rule14_shape|]. apply ev_cls_ok. unfold dot_sym in H. rewrite H. reflexivity. Qed.
+Lemma ev_sym_fail c r pos : dot_sym c = false -> evG (PRef 14) (c :: r) pos PFail.
+Proof. intros H. eapply ev_ref; [exact rule14_shape|]. apply ev_cls_fail. unfold dot_sym in H. rewrite H. reflexivity. Qed.
+Lemma ev_sym_eof pos : evG (PRef 14) [] pos PFail.
+Proof. eapply ev_ref; [exact rule14_shape|]. apply ev_cls_eof. Qed.
+
+Lemma ev_dbody_unit c rest pos : dot_char c = true ->
+  evG dbody (dot_unit c ++ rest) pos (POk rest (pos + List.length (dot_unit c)) []).
+Proof.
+  intros Hc. unfold dot_unit, dbody. destruct (dot_sym c) eqn:Es.
+  - cbn [app List.length]. apply ev_alt_l.
+    eapply ev_seq_ok; [apply (ev_lit_ok G [92]); apply strip1_ok| |reflexivity].
+    eapply ev_conv; [apply ev_sym_ok; exact Es|]. f_equal. cbn [List.length]. lia.
+  - cbn [app List.length]. apply ev_alt_r.
+    + apply ev_seq_fail. apply (ev_lit_fail G [92]). apply strip1_no. intros ->. rewrite dot_sym_92 in Es. discriminate.
+    + eapply ev_seq_ok; [apply ev_not_ok; apply ev_cls_fail| |reflexivity].
+      * unfold dot_char, ctrl_ranges in *. apply negb_true_iff in Hc. rewrite Hc. reflexivity.
+      * eapply ev_seq_ok; [apply ev_not_ok; apply ev_sym_fail; exact Es| |reflexivity].
+        eapply ev_conv; [apply ev_any_ok|]. f_equal. lia.
+Qed.
+Lemma ev_dbody_eof pos : evG dbody [] pos PFail.
+Proof.
+  unfold dbody. apply ev_alt_r.
+  - apply ev_seq_fail. apply (ev_lit_fail G [92]). reflexivity.
+  - eapply ev_seq_fail2; [apply ev_not_ok; apply ev_cls_eof|].
+    eapply ev_seq_fail2; [apply ev_not_ok; apply ev_sym_eof|]. apply ev_any_fail.
+Qed.
+Lemma dot_unit_len c : (1 <= List.length (dot_unit c))%nat.
+Proof. unfold dot_unit. destruct (dot_sym c); cbn; lia. Qed.
+
+Lemma ev_dbody_star k pos : forallb dot_char k = true ->
+  evG (PStar dbody) (esc_dot_cps k) pos (POk [] (pos + List.length (esc_dot_cps k)) []).
+Proof.
+  revert pos. induction k as [|c k IH]; intros pos Hk.
+  - cbn [esc_dot_cps flat_map List.length]. eapply ev_conv; [apply ev_star_stop; apply ev_dbody_eof|f_equal; lia].
+  - cbn [forallb] in Hk. apply andb_true_iff in Hk. destruct Hk as [Hc Hk].
+    unfold esc_dot_cps in *. cbn [flat_map]. fold (dot_unit c). rewrite app_length.
+    pose proof (ev_dbody_unit c (flat_map (fun c0 => if dot_sym c0 then [92; c0] else [c0]) k) pos Hc) as H1.
+    pose proof (dot_unit_len c) as Hl.
+    pose proof (ev_star_step G _ _ _ _ _ _ _ _ _ H1 ltac:(lia) (IH (pos + List.length (dot_unit c))%nat Hk)) as H2.
+    eapply ev_conv; [exact H2|]. f_equal. lia.
+Qed.
+Lemma ev_dbody_plus c k pos : forallb dot_char (c :: k) = true ->
+  evG (PPlus dbody) (esc_dot_cps (c :: k)) pos (POk [] (pos + List.length (esc_dot_cps (c :: k))) []).
+Proof.
+  intros Hk. cbn [forallb] in Hk. apply andb_true_iff in Hk. destruct Hk as [Hc Hk].
+  unfold esc_dot_cps in *. cbn [flat_map]. fold (dot_unit c). rewrite app_length.
+  pose proof (ev_dbody_unit c (flat_map (fun c0 => if dot_sym c0 then [92; c0] else [c0]) k) pos Hc) as H1.
+  pose proof (dot_unit_len c) as Hl.
+  pose proof (ev_plus G _ _ _ _ _ _ _ _ _ H1 ltac:(lia) (ev_dbody_star k (pos + List.length (dot_unit c))%nat Hk)) as H2.
+  unfold esc_dot_cps in H2. eapply ev_conv; [exact H2|]. f_equal. lia.
+Qed.
+
+(* the first character of an escaped non-empty name is neither * nor . *)
+Lemma dot_first c k : exists x r, esc_dot_cps (c :: k) = x :: r /\ x <> 42 /\ x <> 46.
+Proof.
+  unfold esc_dot_cps. cbn [flat_map]. destruct (dot_sym c) eqn:Es.
+  - eexists _, _. split; [reflexivity|]. split; discriminate.
+  - eexists _, _. split; [reflexivity|]. split; intros ->; [rewrite dot_sym_42 in Es|rewrite dot_sym_46 in Es]; discriminate.
+Qed.
+
+Lemma ev_rule13 c k pos : forallb dot_char (c :: k) = true ->
+  evG (PRef 13) (esc_dot_cps (c :: k)) pos
+      (POk [] (pos + List.length (esc_dot_cps (c :: k)))%nat [TText pos (pos + List.length (esc_dot_cps (c :: k))); TAct 10]).
+Proof.
+  intros Hk. eapply ev_ref; [exact rule13_shape|].
+  destruct (dot_first c k) as (x & r & Hx & H42 & _).
+  apply ev_alt_r.
+  - rewrite Hx. eapply ev_ref; [reflexivity|]. apply ev_seq_fail. apply (ev_lit_fail G [42]). apply strip1_no. exact H42.
+  - eapply ev_seq_ok; [apply ev_cap; apply ev_dbody_plus; exact Hk| |reflexivity].
+    eapply ev_seq_ok; [apply ev_not_ok; apply (ev_lit_fail G [40; 41]); reflexivity|apply ev_act|reflexivity].
+Qed.
+
+Lemma strip2_no2 a b c r : c <> b -> strip_prefix [a; b] (a :: c :: r) = None.
+Proof.
+  intros H. cbn [strip_prefix]. rewrite N.eqb_refl.
+  assert (E : (b =? c) = false) by (apply N.eqb_neq; intros ->; apply H; reflexivity). rewrite E. reflexivity.
+Qed.
+
+(* childNode on .name at the end of the path *)
+Lemma ev_rule7_dot c k pos : forallb dot_char (c :: k) = true ->
+  evG (PRef 7) (46 :: esc_dot_cps (c :: k)) pos
+      (POk [] (pos + 1 + List.length (esc_dot_cps (c :: k)))%nat
+           [TText (pos + 1) (pos + 1 + List.length (esc_dot_cps (c :: k))); TAct 10;
+            TText pos (pos + 1 + List.length (esc_dot_cps (c :: k))); TAct 4]).
+Proof.
+  intros Hk. eapply ev_ref; [reflexivity|].
+  destruct (dot_first c k) as (x & r & Hx & _ & H46).
+  apply ev_alt_r; [apply ev_seq_fail; apply (ev_lit_fail G [46; 46]); rewrite Hx; apply strip2_no2; exact H46|].
+  apply ev_alt_l. eapply ev_conv.
+  - eapply ev_seq_ok; [apply ev_cap| apply ev_act |reflexivity].
+    eapply ev_seq_ok; [apply (ev_lit_ok G [46]); apply strip1_ok|apply ev_rule13; exact Hk|reflexivity].
+  - cbn [List.length app]. reflexivity.
+Qed.
+
+Definition dot_tokens (k : list N) : list token :=
+  let n := List.length (esc_dot_cps k) in
+  [TAct 8; TText 2 (2 + n); TAct 10; TText 1 (2 + n); TAct 4; TAct 2; TAct 0].
+
+Lemma ev_dot_path c k : forallb dot_char (c :: k) = true ->
+  evG (PRef 0) (dot_path (c :: k)) 0 (POk [] (List.length (esc_dot_cps (c :: k)) + 2)%nat (dot_tokens (c :: k))).
+Proof.
+  intros Hk. unfold dot_path, dot_tokens. eapply ev_conv.
+  - eapply ev_ref; [reflexivity|]. apply ev_alt_l.
+    eapply ev_seq_ok; [| |reflexivity].
+    + eapply ev_ref; [reflexivity|].
+      eapply ev_seq_ok; [apply ev_space_stop; discriminate| |reflexivity].
+      eapply ev_seq_ok; [| |reflexivity].
+      * eapply ev_ref; [reflexivity|]. apply ev_alt_l. eapply ev_ref; [reflexivity|].
+        eapply ev_seq_ok; [apply (ev_lit_ok G [36]); apply strip1_ok|apply ev_act|reflexivity].
+      * eapply ev_ref; [reflexivity|].
+        eapply ev_seq_ok; [| |reflexivity].
+        -- eapply ev_star_step; [apply (ev_rule7_dot c k); exact Hk|cbn [List.length]; lia|].
+           apply ev_star_stop. apply ev_rule7_eof.
+        -- eapply ev_seq_ok; [apply ev_star_stop; apply ev_rule8_eof| |reflexivity].
+           eapply ev_seq_ok; [apply ev_space_eof|apply ev_act|reflexivity].
+    + eapply ev_seq_ok; [| apply ev_act |reflexivity].
+      eapply ev_ref; [reflexivity|]. apply ev_not_ok. apply ev_any_fail.
+  - cbn [List.length app Nat.add]. set (L := List.length (esc_dot_cps (c :: k))).
+    replace (L + 2)%nat with (2 + L)%nat by lia. reflexivity.
+Qed.
+
+Lemma peg_dot_path c k : forallb dot_char (c :: k) = true ->
+  peg_parse G (dot_path (c :: k)) = POk [] (List.length (esc_dot_cps (c :: k)) + 2)%nat (dot_tokens (c :: k)).
+Proof. intros Hk. apply ev_peg_parse; [apply ev_dot_path; exact Hk|apply peg_never_out_of_fuel]. Qed.
+
+Lemma sub_dot_name k : sub_list (dot_path k) 2 (2 + List.length (esc_dot_cps k)) = esc_dot_cps k.
+Proof.
+  unfold sub_list, dot_path. cbn [skipn]. replace (2 + List.length (esc_dot_cps k) - 2)%nat with (List.length (esc_dot_cps k)) by lia.
+  apply firstn_all.
+Qed.
+Lemma sub_dot_step k : sub_list (dot_path k) 1 (2 + List.length (esc_dot_cps k)) = 46 :: esc_dot_cps k.
+Proof. unfold sub_list, dot_path. cbn [skipn]. apply firstn_all2. cbn [List.length]. lia. Qed.
+
+(* the key has no newline, so the unescape of the dot spelling gives it back *)
+Lemma dot_char_not_nl k : forallb dot_char k = true -> Forall (fun c => c <> 10) k.
+Proof.
+  intros H. apply Forall_forall. intros c Hc Heq. rewrite forallb_forall in H. specialize (H c Hc). subst c. discriminate H.
+Qed.
+Lemma esc_dot_cps_eq k : esc_dot_cps k = esc_dot dot_sym k.
+Proof. reflexivity. Qed.
+
+Section DotExec.
+  Variable cfg : config.
+  Variable parse_float : string -> option num.
+  Variable regex_ok : string -> bool.
+
+  Definition dot_text (k : list N) : string := text_of (46 :: esc_dot_cps k).
+  Definition dot_node (k : list N) : node :=
+    Node (KSingle (string_of_bytes (utf8 k)))
+         {| text := dot_text k; ctext := (dot_text k ++ "")%string; vgroup := false; accessor := cfg_accessor cfg |} ONone.
+
+  Theorem parse_dot_path c k : forallb dot_char (c :: k) = true ->
+    parse_with cfg parse_float regex_ok G (dot_path (c :: k)) = ParseOk (dot_node (c :: k)).
+  Proof.
+    intros Hk. unfold parse_with, parse_from. rewrite (peg_dot_path c k Hk). unfold dot_tokens.
+    cbn [execute]. rewrite sub_dot_name, sub_dot_step.
+    change (exec_action cfg parse_float regex_ok 8 [] 0 ps_init) with
+      (AOk (push (INode (Node KRoot (mk_basic "$" false (cfg_accessor cfg)) ONone)) ps_init)).
+    cbn [abind].
+    assert (E10 : forall st, exec_action cfg parse_float regex_ok 10 (esc_dot_cps (c :: k)) 2 st =
+                             AOk (push_single cfg (string_of_bytes (utf8 (c :: k))) st)).
+    { intros st. cbn [exec_action]. rewrite esc_dot_cps_eq, unescape_dot_esc; [reflexivity|exact dot_sym_92|apply dot_char_not_nl; exact Hk]. }
+    rewrite E10. cbn [abind]. unfold dot_node, dot_text.
+    remember (46 :: esc_dot_cps (c :: k)) as T eqn:HT. remember (string_of_bytes (utf8 (c :: k))) as key eqn:Hkey.
+    remember (text_of T) as tt eqn:Htt.
+    cbv [push_single push with_params ps_init params saved proot app].
+    cbn [exec_action]. rewrite <- Htt.
+    cbv. reflexivity.
+  Qed.
+End DotExec.
